@@ -811,6 +811,41 @@ def gen_e2e(r):
         return dict(c, stream='e2e', segment=seg, tags=['e2e', 'e2e-whole' if seg is None else 'e2e-segmented'] + c['tags'][1:])
 
 
+def header_across_connections(ctx, r, cov):
+    import fakenet as fn
+    out = []
+    base = dict(kex=('curve25519-sha256', 'diffie-hellman-group-exchange-sha256'), key=('ssh-ed25519', 'rsa-sha2-512'), enc=('aes256-ctr',), mac=('hmac-sha2-256',))
+    for k in range(ctx.scale(8, 80)):
+        n1 = r.randint(0, 3)
+        first_lines = [r.choice(['Authorized use only.', 'Welcome to host %d' % k, '*** notice ***', 'ssh-2.0-lowercase']) for _ in range(n1)]
+        later = r.choice([b'Exceeded MaxStartups\r\n', b'Too many connections\r\nplease retry\r\n', b'', b'another notice\r\n'])
+        banner = r.choice([b'SSH-2.0-OpenSSH_8.9p1', b'SSH-2.0-dropbear_2022.83', b'SSH-2.0-libssh_0.9.6'])
+        pre1 = b''.join(l.encode() + b'\r\n' for l in first_lines)
+        hk = {'ssh-ed25519': fn.ed25519_blob(), 'rsa-sha2-512': fn.rsa_blob(3072)}
+        mode = r.choice(['healthy', 'throttled'])
+        s1 = fn.simple_server(banner=banner, hostkeys=hk, gex=(lambda mn, pf, mx: 3072 if mn <= 3072 <= mx else None), pre_banner=pre1, **base)
+        if mode == 'healthy':
+            s2 = fn.simple_server(banner=banner, hostkeys=hk, gex=(lambda mn, pf, mx: 3072 if mn <= 3072 <= mx else None), pre_banner=later, **base)
+        else:       # the probe connections are answered with a throttle message and closed
+            s2 = fn.Server(banner=later.strip() or b'Exceeded MaxStartups', kexinit_payload=None, close_after_send=True)
+        srv = fn.StagedServer([s1, s2])
+        code, text = fn.run_main(['-n', '--skip-rate-test', '10.6.0.1'], fn.FakeNet({'10.6.0.1': srv}))
+        got = []
+        ls = text.split('\n')
+        for i, l in enumerate(ls):
+            if l.startswith('(gen) header: '):
+                got = [l[len('(gen) header: '):]]
+                j = i + 1
+                while j < len(ls) and ls[j] and not ls[j].startswith('('):
+                    got.append(ls[j])
+                    j += 1
+        cov.add(('header-across-connections', k, mode), bool(first_lines), tags=['whole-audit-header', 'probe-connections:' + mode])
+        if got != first_lines or ('(gen) banner: ' + banner.decode()) not in text:
+            out.append({'sig': {'kind': 'header_text_not_from_banner_connection'}, 'input': {'header_across': True, 'first_connection_lines': first_lines, 'later_connections': later.decode(), 'banner': banner.decode(), 'mode': mode},
+                        'observed': {'header': got, 'exit': code}, 'expected': {'header': first_lines}, 'how': 'harness/props/C16.py header_across_connections(): real main() over fakenet (staged server)'})
+    return out
+
+
 def run(ctx):
     r = ctx.rng
     cov = Coverage('one evaluation per generated input and oracle stream (line -> Banner.parse; recv script -> get_banner; software string -> Software.parse; '
@@ -890,6 +925,10 @@ def run(ctx):
     process([gen_software(r) for _ in range(ctx.scale(15000, 200000))])
     process([gen_e2e(r) for _ in range(ctx.scale(200, 2000))])
     correspond(extra_ops(ctx, r))
+    # whole audits with probe connections: the header text reported is the text that preceded the accepted banner on the FIRST connection,
+    # whatever later (probe) connections of the same audit are greeted with (seed C16-11: one list object refilled on every reconnect)
+    for f_ in header_across_connections(ctx, r, cov):
+        failures.append(f_)
     return {'failures': failures, 'mismatches': mismatches, 'coverage': cov, 'corr_cases': corr[0],
             'assumptions': ['the regular-expression engine is represented in the model by a deterministic recogniser; its agreement with `re` (match / no match, all four groups, the findall pairs) is tested on every generated line (banner.rx), not proved',
                             'int() of the minor-version digits is total: fewer than 4300 digits (a line read by get_banner has at most 2048 bytes)',
